@@ -629,6 +629,85 @@ fn vary_defaults(v: &Value, rng: &mut Rng, note: &mut Vec<String>) -> Value {
 
 // ------------------------------------------------------------------------------- main
 
+/// valid encodings with bodies beyond 64 KiB (vbin32 / str32 / sym32 alone, inside a list32 followed by
+/// another entry, and as the last of several array32 elements), from a slice and from a stream
+fn long_variants(report: &mut Report) {
+    for len in [65536usize, 65537, 100_000, 131_073] {
+        let body: Vec<u8> = (0..len).map(|i| b'a' + ((i * 7 + len) % 26) as u8).collect();
+        let text = String::from_utf8(body.clone()).expect("ascii");
+        let cases: Vec<(u8, Value)> = vec![
+            (0xb0, Value::Binary(serde_bytes::ByteBuf::from(body.clone()))),
+            (0xb1, Value::String(text.clone())),
+            (0xb3, Value::Symbol(serde_amqp::primitives::Symbol::from(text.clone()))),
+        ];
+        for (code, v) in cases {
+            let mut one = vec![code];
+            one.extend_from_slice(&be32(len));
+            one.extend_from_slice(&body);
+            // list32 [ value, uint 7 ]
+            let mut list = vec![0xd0];
+            list.extend_from_slice(&be32(4 + one.len() + 2));
+            list.extend_from_slice(&be32(2));
+            list.extend_from_slice(&one);
+            list.extend_from_slice(&[0x52, 0x07]);
+            // array32 of two such elements, a short one and the long one
+            let mut arr = vec![0xf0];
+            arr.extend_from_slice(&be32(4 + 1 + 4 + 1 + 4 + len));
+            arr.extend_from_slice(&be32(2));
+            arr.push(code);
+            arr.extend_from_slice(&be32(1));
+            arr.push(b'z');
+            arr.extend_from_slice(&be32(len));
+            arr.extend_from_slice(&body);
+            let short = match code {
+                0xb0 => Value::Binary(serde_bytes::ByteBuf::from(vec![b'z'])),
+                0xb1 => Value::String("z".into()),
+                _ => Value::Symbol(serde_amqp::primitives::Symbol::from("z")),
+            };
+            let expect: Vec<(&str, Vec<u8>, Value)> = vec![
+                ("alone", one.clone(), v.clone()),
+                ("in-a-list32-followed-by-an-entry", list, Value::List(vec![v.clone(), Value::Uint(7)])),
+                ("last-element-of-an-array32", arr, Value::Array(Array(vec![short, v.clone()]))),
+            ];
+            for (what, bytes, want) in expect {
+                report.evaluations += 1;
+                report.count("long_valid_variants");
+                report.nontrivial_case(fnv(&format!("long-{}-{}-{}", code, len, what)));
+                let replay = json!({"property": "C05", "module": "specenc", "long_variant": what, "code": code, "length": len});
+                match serde_amqp::from_slice::<Value>(&bytes) {
+                    Ok(w) if w == want => {}
+                    r => report.finding(Finding { kind: "violation", key: "valid-variant-not-accepted:long-body".into(), description: format!("0x{:02x} body of {} octets {}: from_slice gives {}", code, len, what, match r { Ok(_) => "another value".to_string(), Err(e) => format!("{:?}", e) }), replay: replay.clone() }),
+                }
+                for chunk in [1usize << 20, 4099] {
+                    let src = ChunkedSrc { data: &bytes, pos: 0, chunk };
+                    match std::panic::catch_unwind(std::panic::AssertUnwindSafe(|| serde_amqp::from_reader::<Value>(src))).unwrap_or_else(|_| Err(serde::de::Error::custom("the stream decoder panicked"))) {
+                        Ok(w) if w == want => {}
+                        r => {
+                            report.finding(Finding { kind: "violation", key: "valid-variant-not-accepted:long-body".into(), description: format!("0x{:02x} body of {} octets {}: from_reader (chunks of {}) gives {}", code, len, what, chunk, match r { Ok(_) => "another value".to_string(), Err(e) => format!("{:?}", e) }), replay: replay.clone() });
+                            break;
+                        }
+                    }
+                }
+            }
+        }
+    }
+}
+
+struct ChunkedSrc<'a> {
+    data: &'a [u8],
+    pos: usize,
+    chunk: usize,
+}
+
+impl std::io::Read for ChunkedSrc<'_> {
+    fn read(&mut self, buf: &mut [u8]) -> std::io::Result<usize> {
+        let n = buf.len().min(self.chunk).min(self.data.len() - self.pos);
+        buf[..n].copy_from_slice(&self.data[self.pos..self.pos + n]);
+        self.pos += n;
+        Ok(n)
+    }
+}
+
 pub fn main(opts: &Opts) {
     let mut report = Report::new(
         "C05",
@@ -686,6 +765,7 @@ pub fn main(opts: &Opts) {
             }
         }
     }
+    long_variants(&mut report);
     let n: u64 = if opts.thorough() { 40_000 } else { 4_000 };
     let mut lines: Vec<String> = vec![];
     let mut imp: Vec<String> = vec![];
@@ -736,6 +816,25 @@ pub fn main(opts: &Opts) {
                         "valid-variant-not-accepted:compact-array-constructor"
                     };
                     report.finding(Finding { kind: "violation", key: key.into(), description: format!("{} encoded as {} (choices {}) decodes to {:?}", text, hex(&bytes), ch, other), replay: json!({"property": "C05", "module": "specenc", "value": text, "bytes": hex(&bytes), "choices": ch}) });
+                }
+            }
+            // the same variant read from a stream (the transport decodes frames and payloads this way)
+            if bytes.len() < 4000 {
+                let chunk = [1usize, 3, 64, 1 << 16][(rng.next() % 4) as usize];
+                report.count("variants_read_from_a_stream");
+                match crate::codec::dec_io(&bytes, chunk).0 {
+                    crate::codec::DecOut::Ok { value, rest: 0 } if value == text => {}
+                    other => {
+                        let zero_width = ["!41", "!42", "!43", "!44"].iter().any(|m| ch.contains(m));
+                        let key = if modelled {
+                            "valid-variant-not-accepted:from-stream"
+                        } else if zero_width {
+                            "valid-variant-not-accepted:array-with-zero-width-element-constructor"
+                        } else {
+                            "valid-variant-not-accepted:compact-array-constructor"
+                        };
+                        report.finding(Finding { kind: "violation", key: key.into(), description: format!("{} encoded as {} (choices {}) read from a stream in chunks of {} decodes to {:?}", text, hex(&bytes), ch, chunk, other), replay: json!({"property": "C05", "module": "specenc", "value": text, "bytes": hex(&bytes), "choices": ch, "chunk": chunk}) });
+                    }
                 }
             }
             if modelled && text.len() < 3000 {
